@@ -115,6 +115,13 @@ def main():
         ([A, B, C], ["--isolate", "--rf-over", "2"], True, 2, True),
         ([A, B, C, os.path.join(t, "D")], ["--isolate", "--rf-under", "3"], False, 3, True),
         ([A, B], ["--isolate"], True, 1, True),
+        # pipelines that end with the permissive filter (groups with rf or more replicas stay in the list of an under-replication search)
+        ([t], ["--unique", "--skip-content-hash"], False, 2, True),
+        ([t], ["--rf-under", "3", "--skip-content-hash"], False, 3, True),
+        ([t], ["--unique", "--transform", "cat"], False, 2, True),
+        ([t], ["--rf-under", "3", "--transform", "cat"], False, 3, True),
+        ([t], ["--skip-content-hash"], True, 1, True),
+        ([t], ["--transform", "cat", "--rf-over", "2"], True, 2, True),
     ]
     devs, runs = [], 0
     for roots_in, opts, over, rf, by_id in configs:
